@@ -24,6 +24,7 @@ func runC03(c *Ctx) {
 	ruleBulkFrame(c, "R03.f")
 	ruleNoRetryAfterParseError(c, "R03.f")
 	ruleSerializerTotal(c, "R03.g")
+	ruleGoroutineOwnsItsIteration(c, "R03.i")
 	// a panic below the dispatcher is swallowed by the connection barrier: the request gets no
 	// reply and the requests pipelined behind it are dropped with the connection
 	ruleArgumentIndexSafety(c, "R03.h")
@@ -679,8 +680,9 @@ func checkRespProvenance(c *Ctx, cl *ConnLoop, msg ssa.Value) []string {
 		ex, ok := strip(v).(*ssa.Extract)
 		return ok && ex.Tuple == cl.Handle && ex.Index == 1
 	}
-	var visit func(v ssa.Value, facts []Atom, depth int)
-	visit = func(v ssa.Value, facts []Atom, depth int) {
+	type pred = func(ssa.Value) bool
+	var visit func(v ssa.Value, facts []Atom, depth int, isHMsg, isHErr pred)
+	visit = func(v ssa.Value, facts []Atom, depth int, isHMsg, isHErr pred) {
 		if depth > 6 {
 			problems = append(problems, "reply provenance too deep to decide")
 			return
@@ -688,7 +690,7 @@ func checkRespProvenance(c *Ctx, cl *ConnLoop, msg ssa.Value) []string {
 		if phi, ok := v.(*ssa.Phi); ok {
 			for i, e := range phi.Edges {
 				pred := phi.Block().Preds[i]
-				visit(e, edgeFacts(pred, succIndex(pred, phi.Block())), depth+1)
+				visit(e, edgeFacts(pred, succIndex(pred, phi.Block())), depth+1, isHMsg, isHErr)
 			}
 			return
 		}
@@ -731,8 +733,36 @@ func checkRespProvenance(c *Ctx, cl *ConnLoop, msg ssa.Value) []string {
 			problems = append(problems, "the error reply is not built from the handler's error")
 			return
 		}
+		// a helper that is handed the handler's message and error and chooses between them
+		if call, ok := sv.(*ssa.Call); ok {
+			if h := staticCallee(call.Common()); h != nil && h.Blocks != nil && inFramework(h) && depth < 4 {
+				var pm, pe *ssa.Parameter
+				for i, a := range call.Common().Args {
+					if i >= len(h.Params) {
+						break
+					}
+					if isHMsg(a) {
+						pm = h.Params[i]
+					}
+					if isHErr(a) {
+						pe = h.Params[i]
+					}
+				}
+				if pm != nil && pe != nil {
+					for _, r := range returnsOf(h) {
+						if len(r.Results) != 1 {
+							continue
+						}
+						visit(retOperand(r, 0), factsAt(r.Block()), depth+1,
+							func(x ssa.Value) bool { return strip(x) == ssa.Value(pm) },
+							func(x ssa.Value) bool { return strip(x) == ssa.Value(pe) })
+					}
+					return
+				}
+			}
+		}
 		problems = append(problems, fmt.Sprintf("the reply %s is neither the handler's message nor NewErrorMessage(handler error)", sv.String()))
 	}
-	visit(msg, factsAt(msg.(ssa.Instruction).Block()), 0)
+	visit(msg, factsAt(msg.(ssa.Instruction).Block()), 0, isHMsg, isHErr)
 	return problems
 }
